@@ -1,6 +1,6 @@
 // REPLAY for property C04, harness k_arm_symbols (unit K-arms, engine kani)
 // Failed obligations:
-//   OBL:arms.undefined_length_symbols_286_287_rejected [C04]  at miniz_oxide/src/inflate/core.rs:3659:33 in function inflate::core::verif_inflate_core::k_arm_symbols
+//   OBL:arms.undefined_length_symbols_286_287_rejected [C04]  at miniz_oxide/src/inflate/core.rs:3660:33 in function inflate::core::verif_inflate_core::k_arm_symbols
 // no-failing-input-found: the verifier reported the failed obligation without a concrete model.
 // Verifier output (tail):
 //   	 - Description: "dereference failure: pointer outside object bounds"
@@ -55,10 +55,10 @@
 //   SUMMARY:
 //    ** 1 of 426 failed (1 unreachable)
 //   Failed Checks: "OBL:arms.undefined_length_symbols_286_287_rejected [C04]"
-//    File: "miniz_oxide/src/inflate/core.rs", line 3659, in inflate::core::verif_inflate_core::k_arm_symbols
+//    File: "miniz_oxide/src/inflate/core.rs", line 3660, in inflate::core::verif_inflate_core::k_arm_symbols
 //   
 //   VERIFICATION:- FAILED
-//   Verification Time: 93.283226s
+//   Verification Time: 117.120285s
 //   
 //   Manual Harness Summary:
 //   Verification failed for - inflate::core::verif_inflate_core::k_arm_symbols
